@@ -531,6 +531,31 @@ class DataFrame(metaclass=_FallbackMeta):
             self._names = list(data._names)
             self._cols = {n: list(v) for n, v in data._cols.items()}
             self._index = list(data._index)
+        elif (isinstance(data, dict) or type(data).__name__ == "ShellMutableMap") and any(isinstance(v, Series) for v in data.values()):
+            # dict holding Series: pandas aligns them on the union of their indexes (kept as it is when all agree, sorted otherwise); plain
+            # sequences are placed positionally and must have the length of that index
+            sers = [v for v in data.values() if isinstance(v, Series)]
+            first = sers[0]._index
+            same = all(len(x._index) == len(first) and all(a is b or a == b for a, b in zip(x._index, first)) for x in sers[1:])
+            if same:
+                idx = list(first)
+            else:
+                idx = []
+                for x in sers:
+                    for lab in x._index:
+                        if not any(lab == k for k in idx):
+                            idx.append(lab)
+                idx = sorted(idx)
+            for k, v in data.items():
+                if isinstance(v, Series):
+                    vals = list(v._values) if same else _align_for_setitem(v, idx)
+                else:
+                    vals = npm._as_list(v)
+                    if len(vals) != len(idx):
+                        raise ValueError("array length %d does not match index length %d" % (len(vals), len(idx)))
+                self._names.append(k)
+                self._cols[k] = vals
+            self._index = idx
         elif isinstance(data, dict) or type(data).__name__ == "ShellMutableMap":
             n = None
             for k, v in data.items():
